@@ -29,14 +29,21 @@ RULE = ("base cases whose fault-free verdict is 'found' (assembly: plain rule, r
         "partial output / killed by a signal. Each fault is injected after a decoy operation (a valid, non-matching rule "
         "or input at the very same paths) in the same process, so stale state cannot mask it. Executed through the API in "
         "bool/first and list/all mode and through the CLI. Oracle: the operation raises (API) / exits non-zero (CLI); "
-        "returning False / [] / logging 'Pattern not found' is the violation; a fault after which JASM still scans the "
-        "input and reports 'found' is counted as tolerated. Non-trivial = fault cases (the fault-free controls are "
+        "returning False / [] / logging 'Pattern not found' is the violation for every fault; reporting 'found' is a "
+        "violation too for the faults the statement lists by name (files, disassembler, malformed YAML, pattern / config "
+        "entries, empty group, $not arity, $deref without main_reg, repetition bounds, undefined macro) and counted as "
+        "tolerated for the rest of the menu (LENIENT). Non-trivial = fault cases (the fault-free controls are "
         "counted separately).")
 ASSUMPTIONS = ["faults are single and injected into files / environment, never into JASM's code",
                "running as root: 'unreadable' is modelled by a directory and by non-UTF-8 bytes"]
 LEVEL_TEXT = ("Every listed fault x every base case x both input kinds x API and CLI; the outcome class of each run is checked. "
               "Exhaustive over the stated fault menu.")
 LEVEL_NOTE = "Trusted: the fault injectors in this module; the CLI's exit status and log lines as observed from a subprocess."
+
+# Faults the statement does not list by name: for these only the silent negative is a violation ('found' = JASM read the
+# document in some tolerant way and did scan).  For every other fault of the menu the statement demands an error outright.
+LENIENT = ("macro_nopattern", "macro_noname", "macro_badname", "macros_", "pattern_mapping", "config_null", "opfull_null", "times_str",
+           "lib_no_macros_key", "lib_macros_null", "top_", "input_not_utf8", "input_empty", "input_truncated")
 
 LISTING = [("401000", "mov", ["%rax", "%rbx"]), ("401003", "push", ["%rax"]), ("401004", "call", ["401030"]), ("401009", "ret", [])]
 DECOY_LISTING = [("401000", "nop", []), ("401001", "ret", [])]
@@ -118,6 +125,27 @@ def rule_faults():
     F.append(("not_0", with_item({"$not": []})))
     F.append(("not_2", with_item({"$not": ["nop", "ret"]})))
     F.append(("not_null", with_item({"$not": None})))
+    # the same structural faults in every position a group can occupy: nested in each instruction-level operator, and as
+    # an operand (directly, with a valid sibling operand, inside each operand-level operator)
+    inst_faults = {"empty_and": {"$and": []}, "empty_or": {"$or": []}, "empty_any": {"$and_any_order": []}, "null_or": {"$or": None},
+                   "not_0": {"$not": []}, "not_2": {"$not": ["nop", "ret"]}, "not_3": {"$not": ["nop", "ret", "mov"]}}
+    inst_ctx = {"in_and": lambda x: {"$and": ["nop", x]}, "in_or": lambda x: {"$or": [x, "nop"]}, "in_any": lambda x: {"$and_any_order": ["nop", x]},
+                "in_not": lambda x: {"$not": [x]}, "in_or_times": lambda x: {"$or": ["nop", x], "times": 2}, "in_and_in_or": lambda x: {"$or": [{"$and": [x, "nop"]}, "ret"]}}
+    for fn, fv in inst_faults.items():
+        for cn, cv in inst_ctx.items():
+            F.append((f"{fn}_{cn}", with_item(cv(copy.deepcopy(fv)))))
+    op_faults = {"empty_and": {"$and": []}, "empty_or": {"$or": []}, "empty_any": {"$and_any_order": []}, "null_or": {"$or": None},
+                 "not_0": {"$not": []}, "not_2": {"$not": ["rax", "rbx"]}, "not_null": {"$not": None},
+                 "deref_no_main": {"$deref": {"constant_offset": "0x8"}}, "deref_empty": {"$deref": {}}}
+    op_ctx = {"operand": lambda x: {"mov": [x]}, "operand_2nd": lambda x: {"mov": ["rax", x]}, "operand_times": lambda x: {"mov": [x], "times": 2},
+              "op_in_or": lambda x: {"mov": [{"$or": [x, "rax"]}]}, "op_in_and": lambda x: {"mov": [{"$and": ["rax", x]}]},
+              "op_in_any": lambda x: {"mov": [{"$and_any_order": [x, "rax"]}]}, "op_in_not": lambda x: {"mov": [{"$not": [x]}]},
+              "op_in_inst_or": lambda x: {"$or": [{"mov": [x]}, "nop"]}}
+    for fn, fv in op_faults.items():
+        for cn, cv in op_ctx.items():
+            if fn.startswith("not") and cn == "op_in_not" and fn != "not_2":
+                pass
+            F.append((f"op_{fn}_{cn}", with_item(cv(copy.deepcopy(fv)))))
     F.append(("deref_no_main", with_item({"mov": [{"$deref": {"constant_offset": "0x8"}}]})))
     F.append(("deref_empty", with_item({"mov": [{"$deref": {}}]})))
     for t in (-1, {"min": -1, "max": 2}, {"min": 0, "max": -2}, {"min": 3, "max": 1}, -1000, {"min": 5000, "max": 2000}, {"min": 1001, "max": 1000},
@@ -340,7 +368,11 @@ def run_shard(shard, tier, h, res, known):
                     res.count("control_not_found_after_decoy")
                 continue
             res.nontrivial += 1
-            res.count({"error": "loud", "found": "tolerated_found", "NOTFOUND": "silent_negative"}[cls])
+            strict = cls == "found" and not fname.startswith(LENIENT)
+            res.count({"error": "loud", "found": "accepted_found" if strict else "tolerated_found", "NOTFOUND": "silent_negative"}[cls])
+            if strict:
+                res.fail({"clause": "fault-accepted", "family": f"{kind}:{fname}", "base": bn, "fault": fname, "mode": mode,
+                          "expected": "an error (exception / non-zero exit): the statement lists this fault", "observed": detail, "size": len(fname)}, known)
             if cls == "NOTFOUND":
                 res.fail({"clause": "silent-negative", "family": f"{kind}:{fname}", "base": bn, "fault": fname, "mode": mode,
                           "expected": "an error (exception / non-zero exit)", "observed": detail, "size": len(fname)}, known)
@@ -375,4 +407,5 @@ def replay(case, h):
     results = run_case(h, case["base"], kind, case["fault"])
     results.pop("_decoy_unexpected", None)
     cls, detail = results[case["mode"]]
-    return cls == "NOTFOUND", f"{case['mode']}: {cls} {detail}"
+    bad = cls == "NOTFOUND" or (case.get("clause") == "fault-accepted" and cls == "found")
+    return bad, f"{case['mode']}: {cls} {detail}"
